@@ -31,6 +31,12 @@ type recConn struct {
 
 func (c *recConn) Write(p []byte) (int, error) {
 	c.mu.Lock()
+	if len(c.frames) > 2000000 {
+		// runaway writer: cut the connection instead of exhausting memory
+		c.mu.Unlock()
+		c.Conn.Close()
+		return 0, io.ErrClosedPipe
+	}
 	c.n++
 	fs, err := c.dec.Feed(p, c.n)
 	c.frames = append(c.frames, fs...)
